@@ -24,7 +24,7 @@ def sh(cmd, cwd=None, timeout=3600):
 def main():
     tag = sys.argv[1]
     args = sys.argv[2:]
-    checks, tier, inplace = None, 'quick', False
+    checks, tier, inplace, checkonly = None, 'quick', False, False
     i = 0
     while i < len(args):
         if args[i] == '--checks':
@@ -33,6 +33,8 @@ def main():
             tier = args[i + 1]; i += 2
         elif args[i] == '--inplace':
             inplace = True; i += 1
+        elif args[i] == '--checkonly':
+            checkonly = True; i += 1  # regression: the change was confirmed before; only re-run the checks
         else:
             i += 1
     src = '/tmp/%s-out' % tag
@@ -67,6 +69,36 @@ def main():
             res['error'] = out[-800:]
             return finish(dst, meta, res, ran)
         changed = sh(['git', '-C', wt, 'diff', '--name-only'])[1].split()
+        if checkonly:
+            old = json.load(open(os.path.join(dst, 'meta.json')))
+            res = dict(old.get('confirmation', {}), applies=True)
+            ran = list(old.get('what_was_run', []))
+            rep = {}
+            ovdir = '/tmp/seedeval-ov-' + tag
+            shutil.rmtree(ovdir, ignore_errors=True)
+            os.makedirs(ovdir)
+            for f in changed:
+                c = os.path.join(ovdir, f.replace('/', '__'))
+                shutil.copy(os.path.join(wt, f), c)
+                rep['/repo/' + f] = c
+            ov = os.path.join(ovdir, 'overlay.json')
+            json.dump({'Replace': rep}, open(ov, 'w'))
+            det = {}
+            for c in checks:
+                rc, out = sh([os.path.join(V, 'pmc'), 'check', c, '--tier', tier, '--extra', ov], cwd=V)
+                classes = [l.split('class=')[1].split(' cases=')[0] for l in out.split('\n') if 'class=' in l and 'cases=' in l]
+                det[c] = {'exit': rc, 'violation_classes': classes[:12], 'detected': rc == 1}
+                ran.append('regression: ./pmc check %s --tier %s --extra <overlay of the patched files>  -> exit %d' % (c, tier, rc))
+            res['checks'] = det
+            shutil.rmtree(ovdir, ignore_errors=True)
+            meta['confirmed'] = old.get('confirmed', False)
+            meta['confirmation'] = res
+            meta['what_was_run'] = ran[-12:]
+            if 'first_run' in old:
+                meta['first_run'] = old['first_run']
+            json.dump(meta, open(os.path.join(dst, 'meta.json'), 'w'), indent=1)
+            print(tag, json.dumps({c: (v['detected'], v['violation_classes'][:2]) for c, v in det.items()}))
+            return
         rc, out = sh('go build ./... && go test -vet=off -count=1 ./...', cwd=wt)
         res['suite_passes_with_patch'] = rc == 0
         ran.append('go build ./... && go test -vet=off -count=1 ./...  (with patch) -> %s' % ('pass' if rc == 0 else 'FAIL'))
